@@ -80,6 +80,21 @@ func New(env *hx.Env, evm *EVM, mix string) *R {
 	return r
 }
 
+// NewFor builds a runner on any environment (the constructor the cross-cutting harnesses
+// register): with the harness EVM when the environment was built with one, otherwise with a
+// detached (always empty) EVM ledger and the operation mix "base", which leaves out the
+// operations that need the transactional EVM (deploy, conversions, hook, faults).
+func NewFor(env *hx.Env) hx.Runner {
+	if e, ok := env.EVM.(*EVM); ok {
+		e.ak = &env.App.AccountKeeper
+		return New(env, e, "c09")
+	}
+	return New(env, NewEVM(), "base")
+}
+
+// State is the canonical state projection carried by the observation lines (hx.Stater).
+func (r *R) State(ctx sdk.Context) string { return r.state(ctx) }
+
 func (r *R) Module() string { return "token" }
 
 func extEth(i int) common.Address { return common.BigToAddress(big.NewInt(int64(0xE000 + i))) }
@@ -589,3 +604,6 @@ func (r *R) Exec(ctx sdk.Context, line string) (sdk.Context, string) {
 	}
 	return ctx, class + " " + r.state(ctx)
 }
+
+var _ hx.Runner = (*R)(nil)
+var _ hx.Stater = (*R)(nil)
